@@ -199,6 +199,11 @@ def region_cart(i, tier):
 VERSIONS = list(range(0, 41)) + [255, 256, 65535]
 
 
+def LABELS_BLANKISH():
+    z = bytes(0x2000)
+    return [z, z[:0x1000] + carts.rot_region(0x1000, 5), z[:-1] + b'\x10', b'\x01' + z[1:], z[:64] + carts.rot_region(0x2000 - 64, 1)]
+
+
 def special_bytes():
     from props import c15
     return c15.special_bytes()
@@ -277,6 +282,9 @@ def run_shard(item):
         for tag, src in lua_sources(item[1]):
             for label in (None, carts.gfx_region(0)):
                 roundtrip(fills, label, 33, src, res, ('lua', tag, label is not None), chain=2)
+        # labels with blank parts: all black, black top rows, only the last pixel set
+        for j, lab in enumerate(LABELS_BLANKISH()):
+            roundtrip(fills, lab, 33, b'x=1\n', res, ('label-blankish', j), chain=2)
         res.sample({'family': 'lua', 'source': lua_sources(item[1])[8][1][:40]})
     elif kind == 'pairs':
         sp = special_bytes()
@@ -310,6 +318,8 @@ def replay(case):
     elif kind == 'lua':
         src = dict(lua_sources(tier))[tag[1]]
         roundtrip(carts.region_fills(0, 0), carts.gfx_region(0) if tag[2] else None, 33, src, res, tuple(tag), chain=2)
+    elif kind == 'label-blankish':
+        roundtrip(carts.region_fills(0, 0), LABELS_BLANKISH()[tag[1]], 33, b'x=1\n', res, tuple(tag), chain=2)
     elif kind == 'pairs':
         sp = special_bytes()
         for t in ('quick', 'thorough'):
